@@ -59,10 +59,10 @@ m = {
     "setup_cmd": "python3 /verif/rules/extract.py setup",
     "hooks": {
         "guard": "none",
-        "enable": "no instrumentation: static analysis reads /repo's sources through a rustc_private driver injected with RUSTC_WRAPPER; no cfg flag or feature is needed",
+        "enable": "no instrumentation and no hook commits: static analysis reads /repo's sources through a rustc_private driver injected with RUSTC_WRAPPER; no cfg flag or feature is needed. source_commits lists the unguarded `fix:` commits (repairs of genuine defects, see known_findings.json `fixed`), which are ordinary edits, not add-only hooks",
         "baseline_off_cmd": "cd /repo && cargo nextest run --workspace --no-fail-fast --test-threads 8 --offline || cargo test --workspace --no-fail-fast --offline",
         "source_commits": texts.get("_source_commits", []),
-        "add_only": True,
+        "add_only": False,
     },
     "engines": [
         {"name": "static-facts", "path": "/verif/check", "serves_properties": [c["property_id"] for c in checks],
